@@ -146,6 +146,7 @@ struct Stats {
     evals: u64,
     nontrivial: u64,
     fits: u64,
+    primary_cases: u64,
     transforms: u64,
     tfidf_transforms: u64,
     window_boundary_cases: u64,
@@ -168,6 +169,7 @@ impl Stats {
         self.evals += o.evals;
         self.nontrivial += o.nontrivial;
         self.fits += o.fits;
+        self.primary_cases += o.primary_cases;
         self.transforms += o.transforms;
         self.tfidf_transforms += o.tfidf_transforms;
         self.window_boundary_cases += o.window_boundary_cases;
@@ -789,6 +791,7 @@ fn run_item(it: &Item, viols: &mut Vec<Violation>) -> Stats {
     if !it.fixed.is_empty() {
         // family D: fixed vocabularies, the pool is the unseen corpus
         for words in it.fixed.iter() {
+            st.primary_cases += 1;
             let Some(f) = check_fit(it.family, s, &valid, Some(words), &[], &mut cache, &mut st, viols) else { continue };
             check_transform(it.family, s, Some(words), &[], &f, &it.pool, true, &mut cache, &mut st, viols);
             st.pool_probes += 1;
@@ -801,6 +804,7 @@ fn run_item(it: &Item, viols: &mut Vec<Violation>) -> Stats {
     }
     let probes: Vec<&[String]> = it.probes.iter().map(|p| p.as_slice()).collect();
     for train in it.corpora.iter() {
+        st.primary_cases += 1;
         let Some(f) = check_fit(it.family, s, &valid, None, train, &mut cache, &mut st, viols) else { continue };
         check_transform(it.family, s, None, train, &f, train, false, &mut cache, &mut st, viols);
         if !it.pool.is_empty() && seen.insert(f.vocab_sorted.clone()) {
@@ -883,7 +887,7 @@ fn main() {
     let empty_pool: std::sync::Arc<Vec<String>> = std::sync::Arc::new(Vec::new());
     let no_corpora: std::sync::Arc<Vec<Vec<String>>> = std::sync::Arc::new(Vec::new());
     let mut items: Vec<Item> = Vec::new();
-    let mut expected_fits: u64 = 0;
+    let mut expected_cases: u64 = 0;
 
     // ---------------- family A ----------------
     let alpha_a = ["aa", "Aa", "bb", "e\u{301}e", "\u{e9}e", "\u{c9}e"];
@@ -907,7 +911,7 @@ fn main() {
                         tfidf: vec![],
                         fixed: no_corpora.clone(),
                     });
-                    expected_fits += corpora_a.len() as u64;
+                    expected_cases += corpora_a.len() as u64;
                 }
             }
         }
@@ -974,7 +978,7 @@ fn main() {
                             tfidf: vec![],
                             fixed: no_corpora.clone(),
                         });
-                        expected_fits += corpora.len() as u64;
+                        expected_cases += corpora.len() as u64;
                     }
                 }
             }
@@ -1004,7 +1008,7 @@ fn main() {
             // one item per training-corpus chunk so that the tf-idf work is spread over the cores
             for chunk in corpora_c.chunks(64) {
                 let chunk = std::sync::Arc::new(chunk.to_vec());
-                expected_fits += chunk.len() as u64 * 4;
+                expected_cases += chunk.len() as u64;
                 items.push(Item {
                     family: "C_tfidf",
                     settings: Settings { lowercase: true, normalize: true, ngram: ng, tokenizer: "default".into(), stopwords: None, df: w, max_features: None },
@@ -1020,7 +1024,7 @@ fn main() {
     // tf-idf through the other tokeniser kinds (function tokenizer survives the serde detour)
     for tok in ["fn:split_space", "re:nonspace"] {
         let small: Vec<Vec<String>> = tuples(&docs_b1, 2);
-        expected_fits += small.len() as u64 * 4;
+        expected_cases += small.len() as u64;
         items.push(Item {
             family: "C_tfidf",
             settings: Settings { lowercase: false, normalize: false, ngram: (1, 2), tokenizer: tok.into(), stopwords: Some(vec!["aa".into()]), df: (0.0, 1.0), max_features: Some(2) },
@@ -1045,7 +1049,7 @@ fn main() {
                     // tf-idf with a fixed vocabulary on a sub-grid (every tf-idf fit compiles the regex again)
                     let with_tfidf = lowercase && normalize && ng == (1, 2) && (tok == "default" || tok == "fn:split_space");
                     let tfidf: Vec<String> = if with_tfidf { vec!["smooth".into(), "nonsmooth".into(), "textbook".into()] } else { vec![] };
-                    expected_fits += fixed_d.len() as u64 * (1 + tfidf.len() as u64);
+                    expected_cases += fixed_d.len() as u64;
                     items.push(Item {
                         family: "D_fixed_vocabulary",
                         settings: Settings { lowercase, normalize, ngram: ng, tokenizer: tok.into(), stopwords: None, df: (0.0, 1.0), max_features: None },
@@ -1061,21 +1065,8 @@ fn main() {
     }
     ctx.extra("D_fixed_vocabularies", json!(fixed_d.len()));
     ctx.extra("sweep_items", json!(items.len()));
-    ctx.extra("fits_enumerated", json!(expected_fits));
+    ctx.extra("primary_cases_enumerated", json!(expected_cases));
 
-    if let Ok(sel) = std::env::var("C17_BENCH") {
-        // development aid: time single items, one thread
-        for (i, it) in items.iter().enumerate() {
-            if it.family.starts_with(&sel) && i % 97 == 0 {
-                let t0 = std::time::Instant::now();
-                let mut v = Vec::new();
-                let st = run_item(it, &mut v);
-                println!("BENCH {} {:?} fits={} transforms={} pool={} viol={} t={:.3}s", it.family, it.settings, st.fits, st.transforms, st.pool_probes, v.len(), t0.elapsed().as_secs_f64());
-                println!("   fit {:.3}s transform {:.3}s", T_FIT.swap(0, Ordering::Relaxed) as f64 * 1e-9, T_TR.swap(0, Ordering::Relaxed) as f64 * 1e-9);
-            }
-        }
-        return;
-    }
     // ---------------- sweep ----------------
     let total = std::sync::Mutex::new(Stats::default());
     let per_family: std::sync::Mutex<BTreeMap<String, (u64, u64, f64)>> = std::sync::Mutex::new(BTreeMap::new());
@@ -1113,14 +1104,15 @@ fn main() {
     }
     let t = total.lock().unwrap().clone();
     ctx.extra("items_completed", json!(items_done.load(Ordering::Relaxed)));
-    ctx.extra("fits_run", json!(t.fits));
-    if items_done.load(Ordering::Relaxed) == items.len() as u64 && t.fits != expected_fits {
-        println!("MACHINERY-ERROR enumerated {} fits but ran {}", expected_fits, t.fits);
+    ctx.extra("fits_run_count_and_tfidf", json!(t.fits));
+    ctx.extra("primary_cases_run", json!(t.primary_cases));
+    if items_done.load(Ordering::Relaxed) == items.len() as u64 && t.primary_cases != expected_cases {
+        println!("MACHINERY-ERROR enumerated {} (settings, training corpus | fixed vocabulary) cases but ran {}", expected_cases, t.primary_cases);
         std::process::exit(2);
     }
     ctx.extra("count_transforms_checked", json!(t.transforms));
     ctx.extra("tfidf_transforms_checked", json!(t.tfidf_transforms));
-    ctx.extra("per_family_evaluations_nontrivial_cpu_seconds", json!(*per_family.lock().unwrap()));
+    ctx.extra("per_family_evaluations_nontrivial_item_wall_seconds", json!(*per_family.lock().unwrap()));
     ctx.extra("window_cases_with_df_exactly_on_a_bound", json!(t.window_boundary_cases));
     ctx.extra("window_cases_where_floor_and_documented_lower_bound_differ", json!(t.window_fractional_sensitive_cases));
     ctx.extra("window_cases_rejecting_some_entry", json!(t.window_rejects_something));
@@ -1134,6 +1126,6 @@ fn main() {
     ctx.extra("pool_transforms", json!(t.pool_probes));
     ctx.extra("unseen_documents_with_out_of_vocabulary_items", json!(t.oov_probe_documents));
     ctx.extra("cells_with_count_at_least_2", json!(t.repeated_count_cells));
-    ctx.extra("subject_cpu_seconds_fit_transform", json!([T_FIT.load(Ordering::Relaxed) as f64 * 1e-9, T_TR.load(Ordering::Relaxed) as f64 * 1e-9]));
+    ctx.extra("subject_wall_seconds_fit_transform_summed_over_threads", json!([T_FIT.load(Ordering::Relaxed) as f64 * 1e-9, T_TR.load(Ordering::Relaxed) as f64 * 1e-9]));
     ctx.finish(&replay_value);
 }
